@@ -14,11 +14,13 @@ import (
 	"fmt"
 	"net"
 	"os"
+	"path/filepath"
 	"strings"
 	"testing"
 	"time"
 
 	"hop.computer/hop/certs"
+	"hop.computer/hop/config"
 	"hop.computer/hop/hopserver"
 	"hop.computer/hop/keys"
 	"hop.computer/hop/transport"
@@ -406,6 +408,12 @@ func genC10(r *vh.Runner) {
 		}
 	}
 	// handshakes that name hostile server names (SNI) against the vhost matcher
+	// the certificate callbacks of a server built by hopserver.NewHopServer itself
+	// (real UDP socket on the loopback interface, real time)
+	nh := r.Pick(2, 40)
+	for b := 0; b < nh; b++ {
+		r.Case(fmt.Sprintf("hopserver-names/%d", b), map[string]any{"batch": b}, func(c *vh.Case) { hopserverNamesRun(r, c, b) })
+	}
 	ns := r.Pick(8, 100)
 	for b := 0; b < ns; b++ {
 		r.Case(fmt.Sprintf("sni/%d", b), map[string]any{"batch": b}, func(c *vh.Case) {
@@ -697,6 +705,89 @@ func sniRun(r *vh.Runner, c *vh.Case, b int) {
 	if b == 0 {
 		r.Sample(map[string]any{"kind": "sni", "labels": labels[:8], "id_types": 4})
 	}
+}
+
+// hopserverNamesRun: hopserver.NewHopServer with host blocks only (no
+// catch-all), listening on a loopback UDP socket. Real clients name hosts that
+// match no block, with every kind of identifier type byte; afterwards a client
+// naming a configured host must still get through (a panic in a server
+// goroutine ends the child and is attributed by the driver).
+func hopserverNamesRun(r *vh.Runner, c *vh.Case, b int) {
+	rng := vh.NewRand(r.Seed, "c10-hopserver", b)
+	pki := fix.NewPKI()
+	known := []string{"known.example", "other.example"}
+	sock := filepath.Join(os.TempDir(), fmt.Sprintf("verif-c10-agproxy-%d-%d.sock", os.Getpid(), b))
+	defer os.Remove(sock)
+	sc := &config.ServerConfig{ListenAddress: "127.0.0.1:0", HandshakeTimeout: 2 * time.Second, DataTimeout: 5 * time.Second,
+		InsecureSkipVerify: true, AgProxyListenSocket: &sock}
+	ids := map[string]*fix.Identity{}
+	for _, k := range known {
+		id := pki.IssueServer(certs.DNSName(k))
+		ids[k] = id
+		sc.Names = append(sc.Names, config.NameConfig{Pattern: k, Key: id.Key, KEMKey: id.KEM, Certificate: id.Leaf, Intermediate: id.Int})
+	}
+	hs, err := hopserver.NewHopServer(sc)
+	if err != nil {
+		c.Inconclusive("NewHopServer: " + err.Error())
+		return
+	}
+	go hs.Serve()
+	defer func() {
+		done := make(chan struct{})
+		go func() { hs.Close(); close(done) }()
+		select {
+		case <-done:
+		case <-time.After(20 * time.Second):
+			r.Count("hopserver_close_outlasted_the_case", 1)
+		}
+	}()
+	addr, ok := hs.ListenAddress().(*net.UDPAddr)
+	if !ok || addr.Port == 0 {
+		c.Inconclusive("no listen address")
+		return
+	}
+	client := pki.Issue(certs.RawStringName("client"))
+	try := func(name certs.Name, timeout time.Duration) error {
+		conn, err := net.ListenUDP("udp", &net.UDPAddr{IP: net.IPv4(127, 0, 0, 1)})
+		if err != nil {
+			return err
+		}
+		cfg := fix.ClientConfig(client, transport.VerifyConfig{Store: pki.Store(), Name: name}, timeout, nil)
+		cl := transport.NewClient(conn, addr, cfg)
+		err = cl.Handshake()
+		cl.Close()
+		conn.Close()
+		return err
+	}
+	labels := []string{"", "nobody.example", "known.exampl", "known.example.", "KNOWN.EXAMPLE", "*", "%s%d%v", "\x00\xff", string(bytes.Repeat([]byte{'n'}, 200)), string(rng.Bytes(1 + rng.Intn(40)))}
+	types := []certs.IDType{certs.TypeDNSName, certs.TypeRaw, certs.TypeIPv4Address, certs.IDType(3), certs.IDType(4), certs.IDType(0x7f), certs.IDType(0x80), certs.IDType(0xff), certs.IDType(rng.Intn(256))}
+	n := 0
+	for _, l := range labels {
+		for _, ty := range types {
+			try(certs.Name{Type: ty, Label: []byte(l)}, 150*time.Millisecond)
+			n++
+		}
+	}
+	// unknown type byte with a label that does match
+	for _, ty := range types {
+		try(certs.Name{Type: ty, Label: []byte(known[rng.Intn(len(known))])}, 300*time.Millisecond)
+		n++
+	}
+	r.Count("evaluations", int64(n))
+	r.Count("hopserver_name_handshakes", int64(n))
+	r.NontrivialN(int64(n))
+	k := known[rng.Intn(len(known))]
+	var last error
+	for attempt := 0; attempt < 3; attempt++ {
+		if last = try(certs.DNSName(k), 3*time.Second); last == nil {
+			break
+		}
+	}
+	if last != nil {
+		c.Violate("C10:server-dead-after-junk:hopserver-names", map[string]any{"handshakes": n, "control_name": k, "control_error": last.Error()})
+		return
+	}
+	r.Count("hopserver_control_handshakes_ok", 1)
 }
 
 // malleableRun: an honest discoverable handshake in which one message is
